@@ -167,6 +167,18 @@ def check_design(spec, ctx, props, scheduler="eager"):
         ctx.notes["rejected" if ill else "accepted"] = ctx.notes.get("rejected" if ill else "accepted", 0) + 1
         if ill:
             ctx.notes["rejected: " + ill] = ctx.notes.get("rejected: " + ill, 0) + 1
+    if an.err is None and ill == "double call" and "C01" in props:
+        # the oracle expects a rejection (an exclusive method reached twice on non-exclusive paths), the code accepted the design:
+        # whether that is right is C11's business, but C01's per-cycle clause must hold on whatever hardware was built
+        an.open()
+        ctx.frames += 1
+        ctx.notes["accepted_although_double_call"] = ctx.notes.get("accepted_although_double_call", 0) + 1
+        for mi, ms in enumerate(an.spec["methods"]):
+            acts = [an.act[s.idx] for s in orc.sites_of.get(mi, [])]
+            if not ms["nonexcl"] and len(acts) > 1:
+                ctx.prove(f"C01 exclusive method {ms['name']} serves at most one active call ({len(acts)} call sites; design accepted although the "
+                          f"method is reached twice)", an.state_assumes, atmost1(acts), an.u)
+        return "accepted-ill"
     if an.err is not None or ill is not None:
         if "C11" not in props:
             ctx.notes["rejected"] = ctx.notes.get("rejected", 0) + 1
